@@ -465,26 +465,44 @@ pub fn value_type_to_string(value: &Option<ValueType>) -> String {
     }
 }
 
-#[derive(Debug, Clone, Copy, PartialEq, PartialOrd)]
+#[derive(Debug, Clone, Copy)]
 pub struct Float(pub f64);
 
+impl PartialEq for Float {
+    fn eq(&self, other: &Self) -> bool {
+        self.cmp(other) == Ordering::Equal
+    }
+}
+
 impl Eq for Float {}
+
+impl PartialOrd for Float {
+    fn partial_cmp(&self, other: &Self) -> Option<Ordering> {
+        Some(self.cmp(other))
+    }
+}
+
 impl Ord for Float {
+    // Total order: numeric order with -0.0 equal to 0.0, NaN equal to itself and greater than every number
     fn cmp(&self, other: &Self) -> Ordering {
-        if self.0 < other.0 {
-            Ordering::Less
-        } else if self.0 > other.0 {
-            Ordering::Greater
-        } else {
-            Ordering::Equal
+        match self.0.partial_cmp(&other.0) {
+            Some(ordering) => ordering,
+            None => self.0.is_nan().cmp(&other.0.is_nan())
         }
     }
 }
 
 impl Hash for Float {
     fn hash<H: Hasher>(&self, state: &mut H) {
-        let bits: u64 = unsafe { std::mem::transmute(self.0) };
-        bits.hash(state)
+        let normalized = if self.0.is_nan() {
+            f64::NAN
+        } else if self.0 == 0.0 {
+            0.0
+        } else {
+            self.0
+        };
+
+        normalized.to_bits().hash(state)
     }
 }
 
